@@ -11,6 +11,8 @@ pub enum LuaScopeKind {
     LocalOrAssignStat,
     // numeric and generic for: the loop variables are visible in the loop body only
     ForRange,
+    // the body block of a numeric / generic for or of a repeat statement (absent when the body is empty)
+    LoopBody,
     FuncStat,
     // defined in function xxx:aaa() end
     MethodStat,
